@@ -7,20 +7,19 @@ use core::ops::Not;
 use crate::speclib::*;
 use crate::speclib_bits::*;
 use crate::l0_prim::*;
+use crate::l0_corespec::*;
 use crate::l1_choice::*;
 use crate::l1_limb::*;
 use crate::l2_core::*;
 use crate::l3_mul::*;
+use crate::l4_modular::*;
+use crate::l5_monty::*;
 verus! {
 
 // ---- library functions without a vstd specification (assumed)
 pub assume_specification<T: Clone> [<[T]>::fill] (s: &mut [T], v: T)
     ensures final(s).len() == old(s).len(), forall|k: int| 0 <= k < old(s).len() ==> final(s)[k] == v;
-// debug_assert_eq!(a, b) expands to a call of this diverging function on inequality: reaching it is a proof obligation
-#[verifier::external_type_specification]
-pub struct ExAssertKind(core::panicking::AssertKind);
-pub assume_specification<T: ?Sized + core::fmt::Debug, U: ?Sized + core::fmt::Debug> [core::panicking::assert_failed::<T, U>] (kind: core::panicking::AssertKind, left: &T, right: &U, args: Option<core::fmt::Arguments<'_>>) -> !
-    requires false;
+// debug_assert_eq!(a, b) reaches `core::panicking::assert_failed` on inequality; its `requires false` is assumed in l0_corespec.rs
 
 // ---- lemmas (slice level)
 
@@ -286,6 +285,20 @@ proof fn lemma_bs_tail_fit(o: Seq<Limb>, s: nat, ll: nat, t: int)
     let wb = val(o.subrange(s as int, ll as int), (ll - s) as nat); let q = bp((ll - s) as nat); let ps = bp(s);
     assert((wb + t) * ps == wb * ps + t * ps) by (nonlinear_arith);
     assert(wb + t < q) by (nonlinear_arith) requires (wb + t) * ps < ps * q, ps >= 1;
+}
+
+/// one limb of the ones' complement pass
+proof fn lemma_bs_not_step(oa: Seq<Limb>, ob: Seq<Limb>, o0: Seq<Limb>, i: nat)
+    requires forall|k: int| 0 <= k < i ==> oa[k] == ob[k], oa[i as int].0 == !o0[i as int].0,
+        val(ob, i) == bp(i) - 1 - val(o0, i),
+    ensures val(oa, i + 1) == bp(i + 1) - 1 - val(o0, i + 1)
+{
+    lemma_val_ext(oa, ob, i);
+    lemma_bp_succ(i);
+    let x = o0[i as int].0; let nx = oa[i as int].0;
+    assert(!x == 0xffff_ffff_ffff_ffffu64 - x) by (bit_vector);
+    let p = bp(i);
+    assert((B() - 1 - x as int) * p == B() * p - p - x as int * p) by (nonlinear_arith);
 }
 
 /// state of a carry-propagating window addition  out[off + k] += src[k]  for k in lo..i  (carry pending at off + i):
@@ -620,6 +633,9 @@ pub fn square_limbs(limbs: &[Limb], out: &mut [Limb])
 }
 //@@ end
 //@@ fn src/uint/mul/karatsuba.rs | - | karatsuba_mul_limbs | body | props C03 C11
+//@+
+#[verifier::rlimit(40)]
+//@-
 pub fn karatsuba_mul_limbs(
     lhs: &[Limb],
     rhs: &[Limb],
@@ -1041,11 +1057,579 @@ pub fn karatsuba_mul_limbs(
 //@-
 }
 //@@ end
-//@@ fn src/uint/mul/karatsuba.rs | - | karatsuba_square_limbs | stub | props C03 C11
-#[verifier::external_body]
+//@@ fn src/uint/mul/karatsuba.rs | - | karatsuba_square_limbs | body | props C03 C11
 pub fn karatsuba_square_limbs(limbs: &[Limb], out: &mut [Limb], scratch: &mut [Limb])
+//@+
+    requires limbs.len() >= 1, 2 * limbs.len() == old(out).len(),
+        (limbs.len() > 48 && limbs.len() % 2 == 0) ==> old(scratch).len() >= old(out).len(),
+    ensures final(out).len() == old(out).len(), final(scratch).len() == old(scratch).len(),
+        val(final(out)@, old(out).len() as nat) == val(limbs@, limbs.len() as nat) * val(limbs@, limbs.len() as nat)
+    decreases limbs.len()
+//@-
 {
-    unimplemented!()
+//@+
+    hide(val);
+//@-
+    let size = limbs.len();
+//@+
+    assert(((size & 1) == 1) == (size % 2 == 1)) by (bit_vector);
+//@-
+    if size <= KARATSUBA_MAX_REDUCE_LIMBS * 2 || (size & 1) == 1 {
+        out.fill(Limb::ZERO);
+        square_limbs(limbs, out);
+        return;
+    }
+    if 2 * size != out.len() || scratch.len() < out.len() {
+        panic!("invalid arguments to karatsuba_square_limbs");
+    }
+    let half = size / 2;
+//@+
+    let ghost s = size as nat; let ghost h = half as nat; let ghost ll = (2 * s) as nat;
+    let ghost be = bp(h); let ghost ps = bp(s); let ghost psh = bp(s + h); let ghost p2s = bp(2 * s);
+    proof {
+        assert(h + h == s);
+        lemma_bp_add(h, h); lemma_bp_add(s, h); lemma_bp_add(s, s); lemma_bp_succ(h); lemma_bp_succ(0);
+        assert((s + s) as nat == 2 * s);
+    }
+//@-
+    let (scratch, ext_scratch) = scratch.split_at_mut(size);
+    let (x0, x1) = limbs.split_at(half);
+//@+
+    let ghost x0v = val(x0@, h); let ghost x1v = val(x1@, h); let ghost xv = val(limbs@, s);
+    proof {
+        assert(limbs@.subrange(0, s as int) =~= limbs@);
+        lemma_bs_split_vals(limbs@, limbs@, limbs@.subrange(s as int, s as int), x0@, x1@, s, s, h);
+    }
+//@-
+    // Initialize output buffer
+    out[..2 * size].fill(Limb::ZERO);
+    // Calculate x0 - x1
+    let mut i = 0;
+    let mut borrow = Limb::ZERO;
+//@+
+    proof { lemma_bs_val0(scratch@); lemma_bs_val0(x0@); lemma_bs_val0(x1@); }
+//@-
+    while i < half
+//@+
+        invariant i <= h, h == half, h + h == s, scratch.len() == s, x0.len() == h, x1.len() == h,
+            borrow.0 == 0 || borrow.0 == u64::MAX,
+            val(scratch@, i as nat) - bb(borrow) * bp(i as nat) == val(x0@, i as nat) - val(x1@, i as nat),
+        decreases h - i
+//@-
+{
+//@+
+        let ghost sa = scratch@; let ghost b0 = borrow;
+//@-
+        let (__t0, __t1) = x0[i].sbb(x1[i], borrow); scratch[i] = __t0; borrow = __t1;
+//@+
+        proof { lemma_bs_sbb_step(scratch@, sa, x0@, x1@, i as nat, bb(borrow), bb(b0)); }
+//@-
+        i += 1;
+    }
+//@+
+    let ghost s1 = scratch@;
+    let ghost d0 = x0v - x1v;
+    let ghost a0: int = if d0 < 0 { -d0 } else { d0 };
+    proof {
+        lemma_val_ext(s1, s1.subrange(0, h as int), h);
+        lemma_bs_abs_seq(s1.subrange(0, h as int), h, bb(borrow), x0v, x1v);
+    }
+//@-
+    // Conditionally negate depending whether subtraction borrowed
+    conditional_wrapping_neg_assign(&mut scratch[..half], ConstChoice::from_word_mask(borrow.0));
+//@+
+    let ghost o1 = out@;
+    proof { assert(val(scratch@.subrange(0, h as int), h) == a0); }
+//@-
+    // Calculate z1 = (x0 - x1)^2 into output
+    karatsuba_square_limbs(&scratch[..half], &mut out[half..3 * half], ext_scratch);
+    // Negate the output (will add 1 to produce the wrapping negative)
+    i = 0;
+//@+
+    let ghost o2 = out@;
+    proof {
+        assert((3 * h - h) as nat == s); assert((s + h) as nat == 3 * h);
+        lemma_bs_mid_val(o2, h, s, a0 * a0);
+        lemma_bs_val0(o2);
+    }
+//@-
+    while i < 2 * size
+//@+
+        invariant i <= 2 * s, s == size, out.len() == 2 * s, o2.len() == 2 * s,
+            forall|k: int| i <= k < 2 * s ==> #[trigger] out@[k] == o2[k],
+            val(out@, i as nat) == bp(i as nat) - 1 - val(o2, i as nat),
+        decreases 2 * s - i
+//@-
+{
+//@+
+        let ghost ob = out@;
+//@-
+        out[i] = !out[i];
+//@+
+        proof { lemma_bs_not_step(out@, ob, o2, i as nat); }
+//@-
+        i += 1;
+    }
+//@+
+    let ghost o3 = out@;
+    let ghost nv = val(o3, 2 * s) + 1;
+//@-
+    // Calculate z0 = x0^2 into scratch
+    karatsuba_square_limbs(x0, scratch, ext_scratch);
+    // Add z0•(1 + b) to output
+    let mut carry = Limb::ONE; // add 1 to complete wrapping negative
+    let mut carry2 = Limb::ZERO;
+    i = 0;
+//@+
+    let ghost z0 = scratch@;
+    proof { lemma_bs_val0(z0); lemma_bs_adc_init(o3, z0, 0, 0, 1); }
+//@-
+    while i < size
+//@+
+        invariant i <= s, s == size, out.len() == ll, ll == 2 * s, o3.len() == ll, scratch.len() == s, carry.0 <= 2,
+            forall|k: int| i <= k < ll ==> #[trigger] out@[k] == o3[k],
+            adc_win(out@, o3, scratch@, 0, 0, i as nat, carry.0 as int, 1),
+        decreases s - i
+//@-
+{
+//@+
+        let ghost ob = out@; let ghost cb = carry;
+//@-
+        let (__t2, __t3) = out[i].adc(scratch[i], carry); out[i] = __t2; carry = __t3; // add z0
+//@+
+        proof { lemma_bs_adc_step(out@, ob, o3, scratch@, 0, 0, i as nat, carry.0 as int, cb.0 as int, 1); }
+//@-
+        i += 1;
+    }
+    i = 0;
+//@+
+    let ghost o4 = out@; let ghost v1 = val(o4, 2 * s); let ghost ca = carry.0 as int;
+    proof { lemma_bs_adc_done(o4, o3, z0, 0, 0, s, 2 * s, ll, ca, 1); lemma_bs_adc_init(o4, z0, h, 0, 0); }
+//@-
+    while i < half
+//@+
+        invariant i <= h, h == half, h + h == s, out.len() == ll, ll == 2 * s, o4.len() == ll, scratch.len() == s, carry2.0 <= 2,
+            forall|k: int| h + i <= k < ll ==> #[trigger] out@[k] == o4[k],
+            adc_win(out@, o4, scratch@, h, 0, i as nat, carry2.0 as int, 0),
+        decreases h - i
+//@-
+{
+//@+
+        let ghost ob = out@; let ghost cb = carry2;
+//@-
+        let (__t4, __t5) = out[i + half].adc(scratch[i], carry2); out[i + half] = __t4; carry2 = __t5; // add z0.0
+//@+
+        proof { lemma_bs_adc_step(out@, ob, o4, scratch@, h, 0, i as nat, carry2.0 as int, cb.0 as int, 0); }
+//@-
+        i += 1;
+    }
+//@+
+    let ghost o5 = out@; let ghost v2 = val(o5, 2 * s); let ghost cb = carry2.0 as int;
+    proof {
+        lemma_bs_adc_done(o5, o4, z0, h, 0, h, 2 * s, ll, cb, 0);
+        lemma_small_mod((ca + cb) as nat, B() as nat);
+        lemma_bs_adc_init(o5, z0, h, h, ca + cb);
+    }
+//@-
+    carry = carry.wrapping_add(carry2);
+    while i < size
+//@+
+        invariant h <= i <= s, h == half, s == size, h + h == s, out.len() == ll, ll == 2 * s, o5.len() == ll, scratch.len() == s, carry.0 <= 4,
+            forall|k: int| h + i <= k < ll ==> #[trigger] out@[k] == o5[k],
+            adc_win(out@, o5, scratch@, h, h, i as nat, carry.0 as int, ca + cb),
+        decreases s - i
+//@-
+{
+//@+
+        let ghost ob = out@; let ghost cbb = carry;
+//@-
+        let (__t6, __t7) = out[i + half].adc(scratch[i], carry); out[i + half] = __t6; carry = __t7; // add z0.1
+//@+
+        proof { lemma_bs_adc_step(out@, ob, o5, scratch@, h, h, i as nat, carry.0 as int, cbb.0 as int, ca + cb); }
+//@-
+        i += 1;
+    }
+//@+
+    let ghost o6 = out@; let ghost v3 = val(o6, 2 * s); let ghost cc = carry.0 as int;
+    proof { lemma_bs_adc_done(o6, o5, z0, h, h, s, 2 * s, ll, cc, ca + cb); }
+//@-
+    // Calculate z2 = x1^2 into scratch
+    karatsuba_square_limbs(x1, scratch, ext_scratch);
+    // Add z2•(b + b^2) to output
+    carry2 = Limb::ZERO;
+    i = 0;
+//@+
+    let ghost z2 = scratch@;
+    proof { lemma_bs_val0(z2); lemma_bs_adc_init(o6, z2, h, 0, 0); }
+//@-
+    while i < size
+//@+
+        invariant i <= s, h == half, s == size, h + h == s, out.len() == ll, ll == 2 * s, o6.len() == ll, scratch.len() == s, carry2.0 <= 2,
+            forall|k: int| h + i <= k < ll ==> #[trigger] out@[k] == o6[k],
+            adc_win(out@, o6, scratch@, h, 0, i as nat, carry2.0 as int, 0),
+        decreases s - i
+//@-
+{
+//@+
+        let ghost ob = out@; let ghost cbb = carry2;
+//@-
+        let (__t8, __t9) = out[i + half].adc(scratch[i], carry2); out[i + half] = __t8; carry2 = __t9; // add z2
+//@+
+        proof { lemma_bs_adc_step(out@, ob, o6, scratch@, h, 0, i as nat, carry2.0 as int, cbb.0 as int, 0); }
+//@-
+        i += 1;
+    }
+//@+
+    let ghost o7 = out@; let ghost v4 = val(o7, 2 * s); let ghost cd = carry2.0 as int;
+    proof {
+        lemma_bs_adc_done(o7, o6, z2, h, 0, s, 2 * s, ll, cd, 0);
+        lemma_small_mod((cc + cd) as nat, B() as nat);
+        lemma_bs_adc_init(o7, z2, s, 0, 0);
+    }
+//@-
+    carry = carry.wrapping_add(carry2);
+    carry2 = Limb::ZERO;
+    i = 0;
+    while i < half
+//@+
+        invariant i <= h, h == half, s == size, h + h == s, out.len() == ll, ll == 2 * s, o7.len() == ll, scratch.len() == s, carry2.0 <= 2,
+            forall|k: int| s + i <= k < ll ==> #[trigger] out@[k] == o7[k],
+            adc_win(out@, o7, scratch@, s, 0, i as nat, carry2.0 as int, 0),
+        decreases h - i
+//@-
+{
+//@+
+        let ghost ob = out@; let ghost cbb = carry2;
+//@-
+        let (__t10, __t11) = out[i + size].adc(scratch[i], carry2); out[i + size] = __t10; carry2 = __t11; // add z2.0
+//@+
+        proof { lemma_bs_adc_step(out@, ob, o7, scratch@, s, 0, i as nat, carry2.0 as int, cbb.0 as int, 0); }
+//@-
+        i += 1;
+    }
+//@+
+    let ghost o8 = out@; let ghost v5 = val(o8, 2 * s); let ghost ce = carry2.0 as int;
+    proof {
+        lemma_bs_adc_done(o8, o7, z2, s, 0, h, 2 * s, ll, ce, 0);
+        lemma_small_mod((cc + cd + ce) as nat, B() as nat);
+        lemma_bs_adc_init(o8, z2, s, h, cc + cd + ce);
+    }
+//@-
+    carry = carry.wrapping_add(carry2);
+    while i < size
+//@+
+        invariant h <= i <= s, h == half, s == size, h + h == s, out.len() == ll, ll == 2 * s, o8.len() == ll, scratch.len() == s, carry.0 <= 8,
+            forall|k: int| s + i <= k < ll ==> #[trigger] out@[k] == o8[k],
+            adc_win(out@, o8, scratch@, s, h, i as nat, carry.0 as int, cc + cd + ce),
+        decreases s - i
+//@-
+{
+//@+
+        let ghost ob = out@; let ghost cbb = carry;
+//@-
+        let (__t12, __t13) = out[i + size].adc(scratch[i], carry); out[i + size] = __t12; carry = __t13; // add z2.1
+//@+
+        proof { lemma_bs_adc_step(out@, ob, o8, scratch@, s, h, i as nat, carry.0 as int, cbb.0 as int, cc + cd + ce); }
+//@-
+        i += 1;
+    }
+//@+
+    proof {
+        let o9 = out@; let v6 = val(o9, 2 * s); let cf = carry.0 as int;
+        lemma_bs_adc_done(o9, o8, z2, s, h, s, 2 * s, ll, cf, cc + cd + ce);
+        lemma_val_bound(o9, 2 * s);
+        assert((h + h) as nat == s); assert((h + s) as nat == s + h); assert((s + s) as nat == 2 * s);
+        let d1 = x1v - x0v;
+        assert(d0 * d1 == -(a0 * a0)) by (nonlinear_arith) requires d1 == -d0, a0 == (if d0 < 0 { -d0 } else { d0 });
+        assert(d0 * d1 * be == -(a0 * a0 * be)) by (nonlinear_arith) requires d0 * d1 == -(a0 * a0);
+        assert(1 * p2s == p2s);
+        assert(nv == d0 * d1 * be + 1 * p2s);
+        lemma_bs_kmul_arith(bp(0), be, ps, psh, p2s, x0v, x1v, x0v, x1v, nv, 1,
+            val(z0, 0), val(z0, h), val(z0, s), val(z2, 0), val(z2, h), val(z2, s),
+            v1, ca, v2, cb, v3, cc, v4, cd, v5, ce, v6, cf);
+    }
+//@-
+}
+//@@ end
+
+// ---- boxed Montgomery multiplication (src/modular/boxed_monty_form/mul.rs) -- C08
+
+// ---- lemmas for the boxed almost-Montgomery multiplication
+
+/// one multiply-accumulate step of  z += x·y  (y a single limb)
+proof fn lemma_bs_amc_step(za: Seq<Limb>, zb: Seq<Limb>, z0: Seq<Limb>, xs: Seq<Limb>, i: nat, y: int, cout: int, cin: int)
+    requires
+        forall|k: int| 0 <= k < i ==> za[k] == zb[k],
+        zb[i as int] == z0[i as int],
+        za[i as int].0 as int + cout * B() == zb[i as int].0 as int + xs[i as int].0 as int * y + cin,
+        val(zb, i) + cin * bp(i) == val(z0, i) + val(xs, i) * y,
+    ensures val(za, i + 1) + cout * bp(i + 1) == val(z0, i + 1) + val(xs, i + 1) * y
+{
+    let a = zb[i as int].0 as int; let x = xs[i as int].0 as int; let p = bp(i);
+    lemma_bs_limb_step(za, zb, i, cout, a + x * y + cin);
+    assert((a + x * y + cin) * p == a * p + x * y * p + cin * p) by (nonlinear_arith);
+    assert((val(xs, i) + x * p) * y == val(xs, i) * y + x * y * p) by (nonlinear_arith);
+}
+
+/// one step of  z = (z + x·y) / B : limb i of the sum is written to position i - 1
+proof fn lemma_bs_shift_step(za: Seq<Limb>, zb: Seq<Limb>, z0: Seq<Limb>, xs: Seq<Limb>, i: nat, y: int, lw: int, cout: int, cin: int)
+    requires i >= 1,
+        forall|k: int| 0 <= k < i - 1 ==> za[k] == zb[k],
+        za[i - 1].0 as int + cout * B() == z0[i as int].0 as int + xs[i as int].0 as int * y + cin,
+        val(zb, (i - 1) as nat) * B() + lw + cin * bp(i) == val(z0, i) + val(xs, i) * y,
+    ensures val(za, i) * B() + lw + cout * bp(i + 1) == val(z0, i + 1) + val(xs, i + 1) * y
+{
+    let i1 = (i - 1) as nat;
+    let a = z0[i as int].0 as int; let x = xs[i as int].0 as int; let p = bp(i); let w = za[i1 as int].0 as int;
+    lemma_val_ext(za, zb, i1);
+    lemma_bp_succ(i1); lemma_bp_succ(i);
+    assert(val(za, i) == val(za, i1) + w * bp(i1));
+    assert((val(za, i1) + w * bp(i1)) * B() == val(za, i1) * B() + w * (B() * bp(i1))) by (nonlinear_arith);
+    assert((w + cout * B()) * p == w * p + cout * (B() * p)) by (nonlinear_arith);
+    assert((a + x * y + cin) * p == a * p + x * y * p + cin * p) by (nonlinear_arith);
+    assert((val(xs, i) + x * p) * y == val(xs, i) * y + x * y * p) by (nonlinear_arith);
+}
+
+/// (a + ((a*k) % B) * m0) % B == 0 when (k*m0) % B == B-1
+proof fn lemma_bs_low_word_zero(a: int, k: int, m0: int)
+    requires 0 <= a < B(), 0 <= k < B(), 0 <= m0 < B(), (k * m0) % B() == B() - 1
+    ensures (a + m0 * ((a * k) % B())) % B() == 0
+{
+    let b = B();
+    let u = (a * k) % b;
+    lemma_mul_mod_noop_left(a * k, m0, b);
+    assert((u * m0) % b == ((a * k) * m0) % b);
+    assert((a * k) * m0 == a * (k * m0)) by (nonlinear_arith);
+    lemma_mul_mod_noop_right(a, k * m0, b);
+    assert((a * (k * m0)) % b == (a * (b - 1)) % b);
+    assert(a * (b - 1) == a * b - a) by (nonlinear_arith);
+    lemma_add_mod_noop_right(a, u * m0, b);
+    lemma_add_mod_noop_right(a, a * (b - 1), b);
+    assert((a + u * m0) % b == (a + a * (b - 1)) % b);
+    assert(a + a * (b - 1) == a * b);
+    lemma_mod_multiples_basic(a, b);
+    assert(u * m0 == m0 * u) by (nonlinear_arith);
+}
+
+/// k·m0 ≡ -1 (mod B) forces m0 != 0
+proof fn lemma_bs_neg_inv_nonzero(k: int, m0: int)
+    requires (k * m0) % B() == B() - 1
+    ensures m0 != 0
+{
+    if m0 == 0 { assert(k * m0 == 0) by (nonlinear_arith) requires m0 == 0; }
+}
+
+/// one round of the CIOS loop on integers: with Z = zv + ts·R the round computes Z' = (Z + x·y_i + m·t) / B
+proof fn lemma_bs_amm_step(r: int, pn1: int, pi: int, zv: int, ts: int, xv: int, yi: int, mv: int, t: int,
+    zav: int, c1: int, tsp: int, c2: int, zbl: int, c3: int, w: int, c4: int, tsn: int, yacc: int, uacc: int)
+    requires
+        r == pn1 * B(), pn1 > 0, pi > 0,
+        zav + c1 * r == zv + xv * yi,
+        tsp + c2 * B() == ts + c1,
+        zbl * B() + c3 * r == zav + mv * t,
+        w + c4 * B() == tsp + c3,
+        tsn == c2 + c4,
+        (zv + ts * r) * pi == xv * yacc + mv * uacc,
+        0 <= xv < r, 0 <= mv < r, 0 <= yacc < pi, 0 <= yi < B(), 0 <= uacc < pi, 0 <= t < B(),
+        0 <= zbl, 0 <= w, 0 <= tsn,
+    ensures
+        (zbl + w * pn1 + tsn * r) * (pi * B()) == xv * (yacc + yi * pi) + mv * (uacc + t * pi),
+        0 <= uacc + t * pi < pi * B(), 0 <= yacc + yi * pi < pi * B(),
+        tsn <= 1
+{
+    let b = B();
+    let zn = zbl + w * pn1 + tsn * r;
+    // zn·B == Z + x·y_i + m·t
+    assert(zn * b == zbl * b + w * (pn1 * b) + tsn * (r * b)) by (nonlinear_arith) requires zn == zbl + w * pn1 + tsn * r;
+    assert(w * r == (tsp + c3 - c4 * b) * r) by (nonlinear_arith) requires w == tsp + c3 - c4 * b;
+    assert((tsp + c3 - c4 * b) * r == tsp * r + c3 * r - c4 * (r * b)) by (nonlinear_arith);
+    assert(tsn * (r * b) == c2 * (r * b) + c4 * (r * b)) by (nonlinear_arith) requires tsn == c2 + c4;
+    assert(tsp * r == (ts + c1 - c2 * b) * r) by (nonlinear_arith) requires tsp == ts + c1 - c2 * b;
+    assert((ts + c1 - c2 * b) * r == ts * r + c1 * r - c2 * (r * b)) by (nonlinear_arith);
+    assert(zn * b == zv + ts * r + xv * yi + mv * t);
+    // scale by B^i
+    let z = zv + ts * r;
+    assert(zn * (pi * b) == (zn * b) * pi) by (nonlinear_arith);
+    assert((z + xv * yi + mv * t) * pi == z * pi + xv * (yi * pi) + mv * (t * pi)) by (nonlinear_arith);
+    assert(xv * (yacc + yi * pi) == xv * yacc + xv * (yi * pi)) by (nonlinear_arith);
+    assert(mv * (uacc + t * pi) == mv * uacc + mv * (t * pi)) by (nonlinear_arith);
+    // ranges of the accumulators
+    assert(0 <= t * pi <= (b - 1) * pi) by (nonlinear_arith) requires 0 <= t <= b - 1, pi > 0;
+    assert(0 <= yi * pi <= (b - 1) * pi) by (nonlinear_arith) requires 0 <= yi <= b - 1, pi > 0;
+    assert((b - 1) * pi + pi == pi * b) by (nonlinear_arith);
+    // zn < 2R, hence the top word is a bit
+    let ya = yacc + yi * pi; let ua = uacc + t * pi; let q = pi * b;
+    lemma_bs_prod_bound(xv, ya, r, q);
+    lemma_bs_prod_bound(mv, ua, r, q);
+    assert(zn * q < 2 * (r * q));
+    assert(zn < 2 * r) by (nonlinear_arith) requires zn * q < 2 * (r * q), q > 0;
+    assert(w * pn1 >= 0) by (nonlinear_arith) requires w >= 0, pn1 > 0;
+    assert(tsn <= 1) by (nonlinear_arith) requires tsn * r < 2 * r, r > 0;
+}
+
+/// end of AMM: Z = zv + ts·R with Z·R == x·y + m·U; the conditional subtraction of m gives rv
+proof fn lemma_bs_amm_final(zv: int, ts: int, rv: int, xv: int, yv: int, mv: int, u: int, r: int)
+    requires (zv + ts * r) * r == xv * yv + mv * u, 0 <= zv < r, ts == 0 || ts == 1, 0 <= u < r,
+        0 <= xv < r, 0 <= yv < r, 0 < mv < r,
+        rv == (if ts == 1 { (zv - mv) % r } else { zv }),
+    ensures (rv * r) % mv == (xv * yv) % mv, 0 <= rv < r, (xv < mv && yv < mv) ==> rv < 2 * mv,
+        rv == zv + ts * r - ts * mv
+{
+    let z = zv + ts * r;
+    lemma_bs_prod_bound(xv, yv, r, r);
+    assert(mv * u < mv * r) by (nonlinear_arith) requires 0 <= u < r, 0 < mv;
+    assert(mv * u >= 0) by (nonlinear_arith) requires 0 <= u, 0 < mv;
+    assert(mv * r == r * mv) by (nonlinear_arith);
+    // z < r + mv
+    assert(z < r + mv) by (nonlinear_arith) requires z * r < r * r + r * mv, r > 0;
+    assert(ts * r == (if ts == 1 { r } else { 0 })) by (nonlinear_arith) requires ts == 0 || ts == 1;
+    assert(ts * mv == (if ts == 1 { mv } else { 0 })) by (nonlinear_arith) requires ts == 0 || ts == 1;
+    if ts == 1 {
+        // zv - mv < 0 <= zv - mv + r < r
+        lemma_fundamental_div_mod_converse(zv - mv, r, -1, zv - mv + r);
+    }
+    assert(rv == z - ts * mv);
+    assert(rv * r == z * r - ts * mv * r) by (nonlinear_arith) requires rv == z - ts * mv;
+    assert(ts * mv * r == mv * (ts * r)) by (nonlinear_arith);
+    assert(mv * u - mv * (ts * r) == mv * (u - ts * r)) by (nonlinear_arith);
+    lemma_mod_multiples_vanish(u - ts * r, xv * yv, mv);
+    if xv < mv && yv < mv {
+        lemma_bs_prod_bound(xv, yv, mv, mv);
+        assert(z < 2 * mv) by (nonlinear_arith) requires z * r < mv * mv + mv * r, 0 < mv < r;
+        assert(ts * mv >= 0);
+    }
+}
+
+/// end of AMM by one: Z·R == x + m·U, so Z <= m, and Z < m for x < m
+proof fn lemma_bs_amm1_final(z: int, xv: int, mv: int, u: int, r: int)
+    requires z * r == xv + mv * u, 0 <= z, 0 <= u < r, 0 <= xv < r, 0 < mv < r
+    ensures z <= mv, xv < mv ==> z < mv, (z * r) % mv == xv % mv
+{
+    assert(mv * u <= mv * (r - 1)) by (nonlinear_arith) requires 0 <= u <= r - 1, 0 < mv;
+    assert(mv * (r - 1) == mv * r - mv) by (nonlinear_arith);
+    assert(z <= mv) by (nonlinear_arith) requires z * r < r + mv * r - mv, r > 0, mv > 0, z >= 0;
+    if xv < mv && z >= mv {
+        assert(z * r >= mv * r) by (nonlinear_arith) requires z >= mv, r > 0;
+        assert(false);
+    }
+    lemma_mod_multiples_vanish(u, xv, mv);
+}
+
+//@@ fn src/modular/boxed_monty_form/mul.rs | - | add_mul_carry | body | props C08 C11
+pub const fn add_mul_carry(z: &mut [Limb], x: &[Limb], y: Limb) -> (ret__: Limb)
+{
+    let n = z.len();
+    if n != x.len() {
+        panic!("Failed preconditions in `add_mul_carry`");
+    }
+    let mut c = Limb::ZERO;
+    let mut i = 0;
+    while i < n
+{
+        let (__t0, __t1) = z[i].mac(x[i], y, c); z[i] = __t0; c = __t1;
+        i += 1;
+    }
+    c
+}
+//@@ end
+//@@ fn src/modular/boxed_monty_form/mul.rs | - | add_mul_carry_and_shift | body | props C08 C11
+pub const fn add_mul_carry_and_shift(z: &mut [Limb], x: &[Limb], y: Limb) -> (ret__: Limb)
+{
+    let n = z.len();
+    if n != x.len() {
+        panic!("Failed preconditions in `add_mul_carry_and_shift`");
+    }
+    let (_, mut c) = z[0].mac(x[0], y, Limb::ZERO);
+    let mut i = 1;
+    let mut i1 = 0;
+    // Help the compiler elide bound checking
+    while i < n && i1 < n
+{
+        let (__t0, __t1) = z[i].mac(x[i], y, c); z[i1] = __t0; c = __t1;
+        i += 1;
+        i1 += 1;
+    }
+    c
+}
+//@@ end
+//@@ fn src/modular/boxed_monty_form/mul.rs | - | conditional_sub | body | props C08 C11
+pub const fn conditional_sub(z: &mut [Limb], x: &[Limb], c: ConstChoice)
+{
+    let n = z.len();
+    if n != x.len() {
+        panic!("Failed preconditions in `conditional_sub`");
+    }
+    let mut borrow = Limb::ZERO;
+    let mut i = 0;
+    while i < n
+{
+        let (zi, new_borrow) = z[i].sbb(Limb(c.if_true_word(x[i].0)), borrow);
+        z[i] = zi;
+        borrow = new_borrow;
+        i += 1;
+    }
+}
+//@@ end
+//@@ fn src/modular/boxed_monty_form/mul.rs | - | almost_montgomery_mul | body | props C08 C11
+pub const fn almost_montgomery_mul(
+    z: &mut [Limb],
+    x: &[Limb],
+    y: &[Limb],
+    m: &[Limb],
+    k: Limb,
+)
+{
+    let n = z.len();
+    // This preconditions check allows compiler to remove bound checks later in the code.
+    if !(x.len() == n && y.len() == n && m.len() == n) {
+        panic!("Failed preconditions in `almost_montgomery_mul`");
+    }
+    let mut ts = Limb::ZERO;
+    let mut i = 0;
+    while i < n
+{
+        let mut c = add_mul_carry(z, x, y[i]);
+        let (__t0, __t1) = ts.overflowing_add(c); ts = __t0; c = __t1;
+        let ts1 = c;
+        let t = z[0].wrapping_mul(k);
+        c = add_mul_carry_and_shift(z, m, t);
+        let (__t2, __t3) = ts.overflowing_add(c); z[n - 1] = __t2; c = __t3;
+        ts = ts1.wrapping_add(c);
+        i += 1;
+    }
+    // If the result overflows the integer size, subtract the modulus.
+    let overflow = ConstChoice::from_word_lsb(ts.0);
+    conditional_sub(z, m, overflow);
+}
+//@@ end
+//@@ fn src/modular/boxed_monty_form/mul.rs | - | almost_montgomery_mul_by_one | body | props C08 C11
+pub const fn almost_montgomery_mul_by_one(z: &mut [Limb], x: &[Limb], m: &[Limb], k: Limb)
+{
+    let n = z.len();
+    // This preconditions check allows compiler to remove bound checks later in the code.
+    if !(x.len() == n && m.len() == n) {
+        panic!("Failed preconditions in `almost_montgomery_mul_by_one`");
+    }
+    let mut ts = Limb::ZERO;
+    let mut i = 0;
+    while i < n
+{
+        let mut c = if i == 0 {
+            add_mul_carry(z, x, Limb::ONE)
+        } else {
+            Limb::ZERO
+        };
+        let (__t0, __t1) = ts.overflowing_add(c); ts = __t0; c = __t1;
+        let ts1 = c;
+        let t = z[0].wrapping_mul(k);
+        c = add_mul_carry_and_shift(z, m, t);
+        let (__t2, __t3) = ts.overflowing_add(c); z[n - 1] = __t2; c = __t3;
+        ts = ts1.wrapping_add(c);
+        i += 1;
+    }
+    // If the result overflows the integer size, subtract the modulus.
+    let overflow = ConstChoice::from_word_lsb(ts.0);
+    conditional_sub(z, m, overflow);
 }
 //@@ end
 
